@@ -106,7 +106,16 @@ func (g *vgen) leaf() *node {
 }
 
 func (g *vgen) tdef() *node {
-	return g.keep(&node{kind: "tdef", id: g.id(), s: tdefSrc[g.r.Intn(len(tdefSrc))]})
+	src := tdefSrc[g.r.Intn(len(tdefSrc))]
+	// one definition per text in a value: a second one is the SAME type object once more (two separately parsed
+	// definitions of one name are two objects whose init hashes hold separate but equal types — identities the
+	// term syntax, which interns types by text, cannot tell apart)
+	for _, n := range g.pool {
+		if n.kind == "tdef" && n.s == src {
+			return n
+		}
+	}
+	return g.keep(&node{kind: "tdef", id: g.id(), s: src})
 }
 
 func (g *vgen) bin() *node {
@@ -346,7 +355,9 @@ func finish(c px.Context, root *node) (text string, ok bool) {
 			n.disp = v.String()
 		}
 		if n.kind == "tdef" {
-			next := int64(1000)
+			// the identities of the init hash: a range of its own per definition (two definitions in one value must not
+			// share identities: the model driver rejects that as incoherent sharing)
+			next := 1000 * (n.id + 1)
 			n.init = nil
 			if ot, ok := v.(px.ObjectType); ok {
 				if tree, ok := valueNode(ot.(px.PuppetObject).InitHash(), &next, freshType(c)); ok {
